@@ -486,6 +486,8 @@ fn run(ctx: &mut Ctx, rep: &mut Report) {
     }
     let s2 = scripts_upto(2);
     let mut gi = 0u64;
+    let mut lap = std::time::Instant::now();
+    let mut laps: Vec<String> = vec![];
     // 2 threads, step-level points: all interleavings
     for a in &s2 {
         for b in &s2 {
@@ -496,6 +498,8 @@ fn run(ctx: &mut Ctx, rep: &mut Report) {
             explore_tuple(ctx, rep, &[a.clone(), b.clone()], false, false, 99, &exp);
         }
     }
+    laps.push(format!("two_threads_step_level={:.1}s", lap.elapsed().as_secs_f64()));
+    lap = std::time::Instant::now();
     // 2 threads with the library's points, preemption bound
     let s_lib: Vec<Vec<Step>> = scripts_upto(2).into_iter().filter(|s| !s.iter().any(|x| matches!(x, Step::Fail(k) if *k >= 4))).collect();
     for a in &s_lib {
@@ -507,6 +511,8 @@ fn run(ctx: &mut Ctx, rep: &mut Report) {
             explore_tuple(ctx, rep, &[a.clone(), b.clone()], true, false, ctx.tier.pick(2, 3), &exp);
         }
     }
+    laps.push(format!("two_threads_library_points={:.1}s", lap.elapsed().as_secs_f64()));
+    lap = std::time::Instant::now();
     // 3 threads: a failure/read thread against two failing threads
     let s3: Vec<Vec<Step>> = scripts_upto(2).into_iter().filter(|s| s.len() == 2 && !s.iter().any(|x| matches!(x, Step::Fail(k) if *k >= 4))).collect();
     let readers: Vec<Vec<Step>> = s3.iter().filter(|s| s[1] == Step::Read || s[1] == Step::Peek).cloned().collect();
@@ -522,6 +528,8 @@ fn run(ctx: &mut Ctx, rep: &mut Report) {
             }
         }
     }
+    laps.push(format!("three_threads={:.1}s", lap.elapsed().as_secs_f64()));
+    lap = std::time::Instant::now();
     // stale handles: every call is handed a handle variable that still holds the handle most recently given to
     // any thread; 2 threads, scripts of up to 2 steps without the callback failures
     {
@@ -536,6 +544,8 @@ fn run(ctx: &mut Ctx, rep: &mut Report) {
             }
         }
     }
+    laps.push(format!("stale_handles={:.1}s", lap.elapsed().as_secs_f64()));
+    lap = std::time::Instant::now();
     // a crowd: one thread fails and keeps its description while N other threads start, fail, check their own
     // description and exit one after the other; then it looks again (one deterministic execution per N)
     for (i, n) in [1usize, 2, 15, 16, 17, 63, 64, 65, 127, 128, 129, 200, 255, 256, 257, 300, 600].into_iter().enumerate() {
@@ -553,6 +563,8 @@ fn run(ctx: &mut Ctx, rep: &mut Report) {
             Err(e) => rep.violation("foreign_description", format!("crowd of {}: {}", n, e), json!({"kind": "crowd", "n": n})),
         }
     }
+    laps.push(format!("crowd={:.1}s", lap.elapsed().as_secs_f64()));
+    lap = std::time::Instant::now();
     // one thread, longer scripts: a description must survive this thread's own later SUCCESSFUL calls and
     // re-reads until its next failure (no interleaving to explore: one execution per script)
     {
@@ -565,6 +577,8 @@ fn run(ctx: &mut Ctx, rep: &mut Report) {
             explore_tuple(ctx, rep, &[sc], false, false, 99, &exp);
         }
     }
+    laps.push(format!("single_thread={:.1}s", lap.elapsed().as_secs_f64()));
+    lap = std::time::Instant::now();
     // 2 and 3 threads working on ONE packet, handed from thread to thread at step boundaries (access to it
     // is serialised by the baton; the error descriptions must stay per thread all the same)
     let on_packet = |s: &Vec<Step>| !s.iter().any(|x| matches!(x, Step::Fail(k) if [2u8, 4, 7].contains(k)));
@@ -589,6 +603,8 @@ fn run(ctx: &mut Ctx, rep: &mut Report) {
             }
         }
     }
+    laps.push(format!("shared_packet={:.1}s", lap.elapsed().as_secs_f64()));
+    lap = std::time::Instant::now();
     // thorough: every 3-step script against every script of up to 2 steps (threads are symmetric, so one order)
     if ctx.tier == Tier::Thorough {
         let s3len: Vec<Vec<Step>> = scripts_upto(3).into_iter().filter(|s| s.len() == 3).collect();
@@ -601,6 +617,10 @@ fn run(ctx: &mut Ctx, rep: &mut Report) {
                 explore_tuple(ctx, rep, &[a.clone(), b.clone()], false, false, 99, &exp);
             }
         }
+    }
+    let _ = lap;
+    if ctx.shard == 0 {
+        rep.notes.push(format!("wall time per family in worker 0: {}", laps.join(" ")));
     }
     if ctx.timed_out() {
         rep.cap("time budget reached".into());
